@@ -295,6 +295,18 @@ fn main() {
             let ts = t.to_string();
             let args = ["version", "--source", "none", "--schema", preset, "--bumped-timestamp", &ts, "--tag-version", "0.0.7"];
             let inproc = zv::run_cli(&args, None);
+            // ... and under the environment profiles of C14 (terminal variables incl. SOURCE_DATE_EPOCH, CI systems): the
+            // date is the commit's, whatever else the environment says about dates
+            for prof in 1..zvharness::envp::PROFILES {
+                let env = zvharness::envp::profile_env(prof);
+                for extra in [&[][..], &["--output-template", "{{ bumped_timestamp }}/{{ format_timestamp(value=bumped_timestamp, format=\"compact_datetime\") }}"][..], &["--no-bump-context", "--output-format", "pep440"][..]] {
+                    let a2: Vec<&str> = args.iter().copied().chain(extra.iter().copied()).collect();
+                    let want = zv::run_cli(&a2, None);
+                    let o = zv::run_bin(&a2, None, &env, None);
+                    s5.inc("process_conformance_cases"); s5.inc("environment_profile_runs");
+                    if let Err(e) = zv::conforms(&want, &o) { ctx.violation("calver_depends_on_environment", format!("{preset} @ {t} profile {prof} {}", extra.join(" ")), json!({"kind":"calver","preset":preset,"t":t,"format":"semver"}), e); }
+                }
+            }
             for tz in ["UTC", "JST-9", "PST8"] {
                 let o = zv::run_bin(&args, None, &[("TZ", tz)], None);
                 s5.inc("process_conformance_cases");
@@ -315,7 +327,7 @@ fn main() {
     cov.evaluations = all.get("pattern_evaluations") + all.get("calver_evaluations") + all.get("schema_pattern_evaluations") + all.get("precedence_evaluations") + all.get("git_calver_evaluations") + all.get("git_pattern_evaluations");
     cov.traces_validated = cov.evaluations;
     cov.distinct_nontrivial = s1.get("days") * secs.len() as u64 * 16;
-    cov.rule = format!("resolve_timestamp on every day 1970-01-01..2199-12-31 ({} days) at seconds-of-day {secs:?} x 16 patterns, every 97th (thorough 7th) day 2200-01-01..9999-12-31 and 13 instants around 2^31 / 2^32 / 2^33 / i64::MAX ns / year 9999, plus every {} second of 12 boundary days (leap days 2000/2100, year ends, week-53 years); the 11 calver presets through the in-process `zerv version --source none --bumped-timestamp` pipeline on {} days x first/last second, and in 8 version states of the tag (final, pre-release, post, pre+post, pre+post+dev, dev, epoch) x 6 state flag sets (clean, ahead, dirty, both, --clean, --distance 0 --no-dirty) x 3 instants x both formats; each pattern by name in a --schema-ron in each section; bumped/last timestamp precedence table via stdin RON; real git repositories at 12 boundary instants (commit time = committer date, author date 500 days off with a +0900 zone; HEAD on the branch and detached at the tag) x 11 calver presets x 16 patterns. The harness runs with TZ=JST-9 so that any local-time dependence is visible. non-trivial = (day, second, pattern) triples of the daily sweep", last_day + 1, if quick { "7th" } else { "single" }, cal_days.len());
+    cov.rule = format!("resolve_timestamp on every day 1970-01-01..2199-12-31 ({} days) at seconds-of-day {secs:?} x 16 patterns, every 97th (thorough 7th) day 2200-01-01..9999-12-31 and 13 instants around 2^31 / 2^32 / 2^33 / i64::MAX ns / year 9999, plus every {} second of 12 boundary days (leap days 2000/2100, year ends, week-53 years); the 11 calver presets through the in-process `zerv version --source none --bumped-timestamp` pipeline on {} days x first/last second, and in 8 version states of the tag (final, pre-release, post, pre+post, pre+post+dev, dev, epoch) x 6 state flag sets (clean, ahead, dirty, both, --clean, --distance 0 --no-dirty) x 3 instants x both formats; each pattern by name in a --schema-ron in each section; bumped/last timestamp precedence table via stdin RON; real git repositories at 12 boundary instants (commit time = committer date, author date 500 days off with a +0900 zone; HEAD on the branch and detached at the tag) x 11 calver presets x 16 patterns. a slice through the real binary under three TZ values and under the three non-empty environment profiles of C14 (SOURCE_DATE_EPOCH, CI variables). The harness runs with TZ=JST-9 so that any local-time dependence is visible. non-trivial = (day, second, pattern) triples of the daily sweep", last_day + 1, if quick { "7th" } else { "single" }, cal_days.len());
     cov.exhaustive = true;
     cov.samples = vec![json!({"pattern":"0W","t":951782400u64,"expected":cal::field("0W", 951782400)}), json!({"preset":"calver-base","t":4107542399u64}), json!({"schema":"ts(\"compact_datetime\") in build","t":1709247600u64})];
     cov.set("clause_counts", all.to_json());
